@@ -4,6 +4,10 @@
   bookkeeping is modelled: which goroutine is alive, how full the three channels are, whether the connection's
   context is cancelled, how often `handleDisconnect` ran.  What the messages are is Layer S.
   `blockingReport = true` is the code before the fix of finding F6 (a blocking send on the cause channel).
+  `frameUnderLock = true` is the code before the fix of finding F15: the session's frame worker itself put the
+  connection's pending updates on the scheduler queue, holding the session's frame lock, which `handleDisconnect`
+  needs (leaveSession -> stopFrameHandling).  Since the fix the session only signals the frame; a goroutine of the
+  connection (`startHandlingFrames`, the pump) does the hand-over.
 -/
 namespace Hagall.Life
 
@@ -12,6 +16,7 @@ structure Caps where
   sq : Nat := 512      -- sendChan
   mq : Nat := 256      -- scheduler queue
   blockingReport : Bool := false
+  frameUnderLock : Bool := false
 
 inductive Main
   | loop        -- in the select of the main loop
@@ -26,8 +31,17 @@ inductive Recv
   | dead
 deriving DecidableEq, Repr
 
+inductive Pump
+  | waiting     -- in its select
+  | pushing     -- a frame was signalled: handing the scheduler's pending updates to its queue
+  | dead
+deriving DecidableEq, Repr
+
 structure H where
   main : Main := .loop
+  pump : Pump := .waiting
+  frameHeld : Bool := false   -- only with `frameUnderLock`: the session's frame worker is blocked on this connection's
+                              -- full scheduler queue, holding the session's frame lock
   dq : Nat := 0
   cancelled : Bool := false
   handled : Nat := 0          -- how often handleDisconnect ran
@@ -46,11 +60,14 @@ inductive Ev
   | writeDone       -- the sender wrote the head of the send queue
   | writeFails      -- the write failed (peer gone, or the write deadline passed)
   | relayIn         -- another participant's broadcast is queued for this connection
+  | frame           -- the session's frame worker reaches this connection while its scheduler holds updates
   -- the handler's own goroutines
   | dispatch        -- receiver: hand the held message to the scheduler
   | recvExit        -- receiver: sees the cancelled context
   | sendDrop        -- sender: after a failed write, take and drop the next queued message
   | sendExit        -- sender: sees the cancelled context, empties the queue, exits
+  | pumpPush        -- frame goroutine (or, before F15's fix, the session's frame worker): an update goes on the scheduler queue
+  | pumpExit        -- frame goroutine: sees the cancelled context
   | handleOk        -- main loop: take a message, handle it, queue an answer
   | handleErr       -- main loop: take a message, the handler returns an error: report it
   | idle            -- main loop: the idle timer fires: report it
@@ -75,6 +92,18 @@ def step (c : Caps) (s : H) : Ev → Option H
   | .sendExit => if s.sender ∧ s.cancelled then some { s with sender := false, sendq := 0 } else none
   -- `handleDisconnect` takes the participant out of its session before the context is cancelled: no relay afterwards
   | .relayIn => if ¬ s.cancelled ∧ s.sendq < c.sq then some { s with sendq := s.sendq + 1 } else none
+  -- frames reach the connection only while its participant is in a session, that is until `handleDisconnect`
+  | .frame =>
+    if s.cancelled then none
+    else if c.frameUnderLock then
+      if s.frameHeld then none
+      else if s.mq < c.mq then some { s with mq := s.mq + 1 } else some { s with frameHeld := true }
+    else if s.pump = .waiting then some { s with pump := .pushing } else none
+  | .pumpPush =>
+    if c.frameUnderLock then
+      if s.frameHeld ∧ s.mq < c.mq then some { s with mq := s.mq + 1, frameHeld := false } else none
+    else if s.pump = .pushing ∧ s.mq < c.mq then some { s with mq := s.mq + 1, pump := .waiting } else none
+  | .pumpExit => if ¬ c.frameUnderLock ∧ s.pump = .waiting ∧ s.cancelled then some { s with pump := .dead } else none
   | .handleOk =>
     if s.main = .loop ∧ ¬ s.cancelled ∧ 0 < s.mq ∧ s.sendq < c.sq then some { s with mq := s.mq - 1, sendq := s.sendq + 1 } else none
   | .handleErr =>
@@ -88,10 +117,13 @@ def step (c : Caps) (s : H) : Ev → Option H
     else none
   | .takeCause =>
     if s.main = .loop ∧ 0 < s.dq then
-      some { s with dq := s.dq - 1, handled := s.handled + 1, closed := true, cancelled := true, main := .winding }
+      -- handleDisconnect leaves the session, which takes the session's frame lock
+      if s.frameHeld then some { s with dq := s.dq - 1, main := .stuck }
+      else some { s with dq := s.dq - 1, handled := s.handled + 1, closed := true, cancelled := true, main := .winding }
     else none
   | .drain => if s.main = .winding ∧ 0 < s.mq then some { s with mq := s.mq - 1 } else none
-  | .finish => if s.main = .winding ∧ ¬ s.sender ∧ s.recv = .dead then some { s with main := .returned } else none
+  | .finish =>
+    if s.main = .winding ∧ ¬ s.sender ∧ s.recv = .dead ∧ (c.frameUnderLock ∨ s.pump = .dead) then some { s with main := .returned } else none
 
 /-- run a schedule; events that are not enabled are skipped -/
 def run (c : Caps) (s : H) : List Ev → H
@@ -100,7 +132,7 @@ def run (c : Caps) (s : H) : List Ev → H
 
 /-- the events of the handler's own goroutines that need nothing from the client -/
 def Ev.internal : Ev → Bool
-  | .dispatch | .recvExit | .sendDrop | .sendExit | .drain | .finish | .readFails | .writeFails => true
+  | .dispatch | .recvExit | .sendDrop | .sendExit | .drain | .finish | .readFails | .writeFails | .pumpPush | .pumpExit => true
   | _ => false
 
 end Hagall.Life
